@@ -10,10 +10,10 @@ import (
 
 func init() {
 	props["C03"] = &propCheck{
-		lean: []string{"JSight.Props.C03"},
-		exes: []string{},
-		run:  runC03,
-		rule: "generated documents, with emphasis on those with >= 2 simultaneous faults of the same kind and >= 2 entries in every internally hashed collection (macros, enum rules, unused path parameters, tags), each processed repeatedly in-process, concurrently with other documents, and in fresh processes; non-trivial = the document has >= 2 entries in a hashed collection or >= 2 faults; distinct = distinct document",
+		lean:    []string{"JSight.Props.C03"},
+		exes:    []string{},
+		run:     runC03,
+		rule:    "generated documents, with emphasis on those with >= 2 simultaneous faults of the same kind and >= 2 entries in every internally hashed collection (macros, enum rules, unused path parameters, tags), each processed repeatedly in-process, concurrently with other documents, and in fresh processes; non-trivial = the document has >= 2 entries in a hashed collection or >= 2 faults; distinct = distinct document",
 		assume:  []string{"'fresh processes' and 'while other projects are processed' are observed, not proved; iteration order inside the schema library is outside the model"},
 		trusted: []string{"the Go runtime randomises map iteration per range statement, so repetition explores orders; the theorem side (every map range is order-independent) is in Props/C03.lean"},
 	}
